@@ -42,34 +42,68 @@ Theorem C17_pow_linear : forall (a : qmsg) (k : Q), exact_family (fam a) -> wf a
   Forall2 (Forall2 Qeq) (nat_of Qops (b_pow Qops a k)) (map (vscale Qops k) (nat_of Qops a)).
 Proof. exact pow_linear. Qed.
 
+(* ===== self-consistency of the code as it is now (fix e239f62: products carry log_norm): the laws hold IN FULL --
+   parameters, class, shape, id, limits AND log_norm ===== *)
+Theorem C17_div_mul : forall a b : qmsg, exact_family (fam a) -> exact_family (fam b) -> wf a -> wf b -> same_shape a b ->
+  msg_equiv (b_div Qops (b_sum Qops cur a [b]) b) a.
+Proof. exact (div_mul_full cur eq_refl). Qed.
+
+Theorem C17_mul_div : forall a b : qmsg, exact_family (fam a) -> exact_family (fam b) -> wf a -> wf b -> same_shape a b ->
+  msg_equiv (b_sum Qops cur (b_div Qops a b) [b]) a.
+Proof. exact (mul_div_full cur eq_refl). Qed.
+
+Theorem C17_pow_add : forall (a : qmsg) (j k : Q), exact_family (fam a) -> wf a ->
+  msg_equiv (b_sum Qops cur (b_pow Qops a j) [b_pow Qops a k]) (b_pow Qops a (j + k)%Q).
+Proof. exact (pow_add_full cur eq_refl). Qed.
+
+Theorem C17_mul_zeros : forall a : qmsg, exact_family (fam a) -> wf a -> msg_equiv (b_sum Qops cur a [b_zeros Qops a]) a.
+Proof. exact (mul_zeros_full cur eq_refl). Qed.
+
+(* the variants of the model differ only in log_norm: every natural-parameter theorem stated for `pinned` below
+   (additivity, commutativity, associativity, sum3) is a statement about every variant, `cur` included *)
+Theorem C17_sum_variant_indep : forall (V : variant) (a : qmsg) (l : list qmsg),
+  meta_eq (b_sum Qops V a l) (b_sum Qops pinned a l) /\ elems (b_sum Qops V a l) = elems (b_sum Qops pinned a l)
+  /\ nat_of Qops (b_sum Qops V a l) = nat_of Qops (b_sum Qops pinned a l).
+Proof. exact sum_variant_indep. Qed.
+
+Theorem C17_mul_additive_cur : forall a b : qmsg, exact_family (fam a) -> exact_family (fam b) -> wf a -> wf b ->
+  Forall2 (Forall2 Qeq) (nat_of Qops (b_sum Qops cur a [b])) (map2 (vadd Qops) (nat_of Qops a) (nat_of Qops b)).
+Proof. exact (sum_additive_any cur). Qed.
+
+Theorem C17_mul_comm_nat_cur : forall a b : qmsg, exact_family (fam a) -> exact_family (fam b) -> wf a -> wf b ->
+  Forall2 (Forall2 Qeq) (nat_of Qops (b_sum Qops cur a [b])) (nat_of Qops (b_sum Qops cur b [a])).
+Proof. exact (mul_comm_nat_any cur). Qed.
+
+(* history: before e239f62 the product dropped log_norm (model variant `pinned`): refutation witnesses and the exact
+   description of what the old code returned *)
 (* ===== self-consistency. Full statement "(a*b)/b equals a" (parameters, class, shape, id, limits AND
    log_norm): refuted for the pinned code, holds exactly when log_norm a + log_norm b = 0 ===== *)
-Theorem C17_div_mul_refuted : exists a b : qmsg,
+Theorem C17_div_mul_legacy_refuted : exists a b : qmsg,
   exact_family (fam a) /\ exact_family (fam b) /\ wf a /\ wf b /\ same_shape a b /\
   ~ msg_equiv (b_div Qops (b_sum Qops pinned a [b]) b) a.
 Proof. exact div_mul_refuted. Qed.
 
-Theorem C17_div_mul_partial : forall a b : qmsg, exact_family (fam a) -> exact_family (fam b) -> wf a -> wf b ->
+Theorem C17_div_mul_legacy_partial : forall a b : qmsg, exact_family (fam a) -> exact_family (fam b) -> wf a -> wf b ->
   same_shape a b ->
   msg_equiv_upto_lognorm (b_div Qops (b_sum Qops pinned a [b]) b) a
   /\ (lognorm (b_div Qops (b_sum Qops pinned a [b]) b) == - lognorm b)%Q.
 Proof. exact div_mul_partial. Qed.
 
-Theorem C17_div_mul_full_iff : forall a b : qmsg, exact_family (fam a) -> exact_family (fam b) -> wf a -> wf b ->
+Theorem C17_div_mul_legacy_full_iff : forall a b : qmsg, exact_family (fam a) -> exact_family (fam b) -> wf a -> wf b ->
   same_shape a b -> (msg_equiv (b_div Qops (b_sum Qops pinned a [b]) b) a <-> (lognorm a + lognorm b == 0)%Q).
 Proof. exact div_mul_full_iff. Qed.
 
-Theorem C17_mul_div_partial : forall a b : qmsg, exact_family (fam a) -> exact_family (fam b) -> wf a -> wf b ->
+Theorem C17_mul_div_legacy_partial : forall a b : qmsg, exact_family (fam a) -> exact_family (fam b) -> wf a -> wf b ->
   same_shape a b ->
   msg_equiv_upto_lognorm (b_sum Qops pinned (b_div Qops a b) [b]) a /\ (lognorm (b_sum Qops pinned (b_div Qops a b) [b]) == 0)%Q.
 Proof. exact mul_div_partial. Qed.
 
 (* a**j * a**k vs a**(j+k): same defect *)
-Theorem C17_pow_add_refuted : exists (a : qmsg) (j k : Q), exact_family (fam a) /\ wf a /\
+Theorem C17_pow_add_legacy_refuted : exists (a : qmsg) (j k : Q), exact_family (fam a) /\ wf a /\
   ~ msg_equiv (b_sum Qops pinned (b_pow Qops a j) [b_pow Qops a k]) (b_pow Qops a (j + k)%Q).
 Proof. exact pow_add_refuted. Qed.
 
-Theorem C17_pow_add_partial : forall (a : qmsg) (j k : Q), exact_family (fam a) -> wf a ->
+Theorem C17_pow_add_legacy_partial : forall (a : qmsg) (j k : Q), exact_family (fam a) -> wf a ->
   msg_equiv_upto_lognorm (b_sum Qops pinned (b_pow Qops a j) [b_pow Qops a k]) (b_pow Qops a (j + k)%Q)
   /\ (lognorm (b_sum Qops pinned (b_pow Qops a j) [b_pow Qops a k]) == 0)%Q
   /\ (lognorm (b_pow Qops a (j + k)%Q) == (j + k) * lognorm a)%Q.
@@ -109,11 +143,11 @@ Theorem C17_zeros_nat : forall a : qmsg, exact_family (fam a) -> wf a ->
   Forall2 (Forall2 Qeq) (nat_of Qops (b_zeros Qops a)) (map (map (fun _ => 0%Q)) (nat_of Qops a)).
 Proof. exact zeros_nat. Qed.
 
-Theorem C17_mul_zeros_partial : forall a : qmsg, exact_family (fam a) -> wf a ->
+Theorem C17_mul_zeros_legacy_partial : forall a : qmsg, exact_family (fam a) -> wf a ->
   msg_equiv_upto_lognorm (b_sum Qops pinned a [b_zeros Qops a]) a.
 Proof. exact mul_zeros_partial. Qed.
 
-Theorem C17_mul_zeros_refuted : exists a : qmsg, exact_family (fam a) /\ wf a /\
+Theorem C17_mul_zeros_legacy_refuted : exists a : qmsg, exact_family (fam a) /\ wf a /\
   ~ msg_equiv (b_sum Qops pinned a [b_zeros Qops a]) a.
 Proof. exact mul_zeros_refuted. Qed.
 
@@ -140,9 +174,10 @@ Proof. exact @fixed_laws. Qed.
 
 (* the model variant `cur` the correspondence check compares with the code: the four repairs applied to /repo
    are in, the two still proposed (product log_norm, transformed project) are off *)
-Theorem C17_code_variant :
-  keep_limits cur = true /\ tzeros_via_base cur = true /\ beta_project_ok cur = true /\ fixed_truediv_noop cur = true.
-Proof. exact (conj eq_refl (conj eq_refl (conj eq_refl eq_refl))). Qed.
+Theorem C17_code_variant : cur = repaired /\
+  keep_limits cur = true /\ tzeros_via_base cur = true /\ beta_project_ok cur = true /\ fixed_truediv_noop cur = true
+  /\ product_keeps_lognorm cur = true /\ tproject_transforms cur = true.
+Proof. exact (conj eq_refl (conj eq_refl (conj eq_refl (conj eq_refl (conj eq_refl (conj eq_refl eq_refl)))))). Qed.
 
 (* division by a real number is the identity as well (fix 7b98f8b: __truediv__ = _no_op) *)
 Theorem C17_fixed_sdiv : forall (T : Type) (O : ops T) (a : msg (T := T)) (c : T),
@@ -252,13 +287,19 @@ Theorem C17_normal_negative_power_refuted :
   opt_eqb mval_eqb (eval (fops true tb0) pinned [MB n1] (EPow (EPow (EVar 0) (-1)%float) (-1)%float)) (Some (MB n1)) = false.
 Proof. exact normal_negative_power_refuted. Qed.
 
-(* whole-message statements for NormalMessage: class, id, limits, shape, parameters and the (defective) log_norm *)
-Theorem C17_normal_div_mul_msg_partial : forall a b : rmsg, normal_valid a -> nvalid b -> length (elems a) = length (elems b) ->
+(* (a*b)/b = a in full for NormalMessage in the code as it is now *)
+Theorem C17_normal_div_mul_msg : forall a b : rmsg, normal_valid a -> nvalid b -> length (elems a) = length (elems b) ->
+  let r := b_div Rops (b_sum Rops cur a [b]) b in
+  fam r = FNormal /\ bmeta r = bmeta a /\ elems r = elems a /\ lognorm r = lognorm a.
+Proof. exact (fun a b => normal_div_mul_full cur a b eq_refl). Qed.
+
+(* history (variant `pinned`): whole-message statements for NormalMessage: class, id, limits, shape, parameters and the (defective) log_norm *)
+Theorem C17_normal_div_mul_msg_legacy_partial : forall a b : rmsg, normal_valid a -> nvalid b -> length (elems a) = length (elems b) ->
   let r := b_div Rops (b_sum Rops pinned a [b]) b in
   fam r = FNormal /\ bmeta r = bmeta a /\ elems r = elems a /\ lognorm r = (- lognorm b)%R.
 Proof. exact normal_div_mul_partial. Qed.
 
-Theorem C17_normal_pow_add_msg_partial : forall (a : rmsg) (j k : R), normal_valid a -> (0 < j)%R -> (0 < k)%R ->
+Theorem C17_normal_pow_add_msg_legacy_partial : forall (a : rmsg) (j k : R), normal_valid a -> (0 < j)%R -> (0 < k)%R ->
   let l := b_sum Rops pinned (b_pow Rops a j) [b_pow Rops a k] in
   let r := b_pow Rops a (j + k)%R in
   fam l = fam r /\ bmeta l = bmeta r /\ elems l = elems r /\ lognorm l = 0%R /\ lognorm r = ((j + k) * lognorm a)%R.
@@ -291,7 +332,13 @@ Theorem C17_transformed_project_repaired : forall (O : ops float) (V : variant) 
   tproj_cols O V stack cols = map (fun c => (map (fun x => fst (transform_det O stack x)) (fst c), snd c)) cols.
 Proof. exact tproj_cols_repaired. Qed.
 
-(* the code as it is (flag off): the raw samples are projected *)
+(* the code as it is now (fix ffa313c) *)
+Theorem C17_transformed_project : forall (O : ops float) (stack : list (transform float))
+  (cols : list (list float * list float)),
+  tproj_cols O cur stack cols = map (fun c => (map (fun x => fst (transform_det O stack x)) (fst c), snd c)) cols.
+Proof. exact (fun O stack cols => tproj_cols_repaired O cur stack cols eq_refl). Qed.
+
+(* history: before that fix the raw samples were projected *)
 Theorem C17_transformed_project_legacy : forall (O : ops float) (V : variant) (stack : list (transform float))
   (cols : list (list float * list float)), tproject_transforms V = false -> tproj_cols O V stack cols = cols.
 Proof. exact tproj_cols_legacy. Qed.
@@ -347,7 +394,7 @@ Theorem C17_transform_density : forall (ndtri npdf : R -> R) (p : R -> R) (stack
             Model.factor (RopsP ndtri npdf) p stack x = (p (fst (transform_det (RopsP ndtri npdf) stack x)) + ln D)%R.
 Proof. exact model_factor_change_of_variables. Qed.
 
-Print Assumptions C17_div_mul_partial.
+Print Assumptions C17_div_mul.
 Print Assumptions C17_wrapper_preserved.
 Print Assumptions C17_transformed_zeros_legacy_refuted.
 Print Assumptions C17_normal_div_mul.
